@@ -996,6 +996,9 @@ def _advance_head_front(state: State, heads: List[FlowHead]) -> List[FlowHead]:
         if flow_state.status == FlowStatus.WAITING:
             flow_state.status = FlowStatus.STARTING
 
+        # A flow in this status has not reached its first waiting statement yet
+        flow_was_starting = flow_state.status == FlowStatus.STARTING
+
         flow_finished = False
         flow_aborted = False
         try:
@@ -1078,6 +1081,18 @@ def _advance_head_front(state: State, heads: List[FlowHead]) -> List[FlowHead]:
             _finish_flow(state, flow_state, head.matching_scores)
             log.debug("Flow finished: %s with last element", head.flow_state_uid)
         elif flow_aborted:
+            if (
+                flow_was_starting
+                and flow_state.activated > 0
+                and not flow_state.new_instance_started
+            ):
+                # Avoid an activated flow that failed before it was started from
+                # restarting since this would end in an infinite loop
+                log.warning(
+                    "Activated flow '%s' failed before it was started, it is not restarted",
+                    flow_state.flow_id,
+                )
+                flow_state.new_instance_started = True
             _abort_flow(state, flow_state, head.matching_scores)
             log.debug("Flow aborted: %s by 'abort' statement", head.flow_state_uid)
 
